@@ -105,7 +105,10 @@ Clauses(e) ==
                     <<"complete-threads-when-run-returns", e.done.seats_done_at_return>>,
                     <<"clients-complete", ~e.done.clients_exc>> >>
      IN IF AllFails(base) # "" \/ ~DecsComplete(e, Len(e.boards))
-        THEN base \o << <<"complete-decisions", DecsComplete(e, Len(e.boards))>> >>
+        THEN base \o << <<"complete-decisions", DecsComplete(e, Len(e.boards))>>,
+                          \* C08: the log lists the configured boards - all of them
+                          <<"log-lists-all-boards", e.file.present /\ e.file.json_ok
+                                                      /\ e.file.nitems = Len(e.boards)>> >>
              \* the session stopped: everything the decisions taken so far oblige
              \* the server to send must have been sent (boards before the last
              \* started one must be complete for this to be defined)
